@@ -81,6 +81,14 @@ func parseExtensions(e []AnyExtension) ([]config.ExtensionConfig, error) {
 				return nil, fmt.Errorf("field '%v' can't be casted properly", innerStructTyp.Name)
 			}
 
+			//Oid() has no way to report an error later on, so check now
+			if custom, isCustom := innerStructAny.(CustomExtension); isCustom {
+				if _, err := cert.OidFromString(custom.OidStr); err != nil {
+					return nil, fmt.Errorf("config-v1: [customExtension] '%v' is not a valid oid: %v",
+						custom.OidStr, err)
+				}
+			}
+
 			out = append(out, innerStruct)
 		}
 
